@@ -1,9 +1,9 @@
 (** Extraction of the executable model (ExtrOcamlBasic only). *)
-From Brood Require Import World Multi SerdeC Phys Kinds Sched Query.
+From Brood Require Import World Multi SerdeC Phys Kinds Sched Query Subset SubsetM.
 Require Extraction.
 Require Import ExtrOcamlBasic.
 Extraction "model.ml" step run abs clone_world clone_from_world world_eqb
   ser_world de_world empty_world get_loc is_active
-  query_impl entry_query de_content
+  query_impl entry_query entries_entry_query de_content
   p_remove_row p_clear p_set p_drop_arch parch_of double_drops find_arch
   N.add N.mul N.div_eucl N.modulo N.of_nat N.to_nat.
